@@ -96,6 +96,64 @@ def run(ctx):
                 ctx.violation("cell:%s:%s-vs-%s" % (c["op"], c["hay"]["t"], "num" if c["needle"].lstrip("+-").replace(".", "", 1).isdigit() else "text"),
                               "search_matches(%s, needle=%r, haystack=%r) = %s, documented rules give %s" % (
                                   c["op"], c["needle"], c["hay"], got, c["m"]), {"kind": "cell", "cell": c})
+    # ---- C->S: seeded random scalars and terms beyond the pool (Batch_Compare)
+    import random
+    rng = random.Random(ctx.seed)
+
+    def rnd_text():
+        return "".join(rng.choice("abcAB012 .-") for _ in range(rng.randint(0, 5)))
+
+    def rnd_scalar():
+        k = rng.random()
+        if k < 0.3:
+            return {"t": "int", "v": str(rng.randint(-100000, 100000))}
+        if k < 0.5:
+            return {"t": "float", "v": "%d.%s" % (rng.randint(-999, 999), rng.choice(["5", "25", "0", "75", "1"]))}
+        if k < 0.55:
+            return {"t": "bool", "v": rng.choice(["true", "false"])}
+        if k < 0.6:
+            return {"t": "null", "v": ""}
+        return {"t": "str", "v": rng.choice([rnd_text(), str(rng.randint(-50, 50)), "%d.5" % rng.randint(0, 9)])}
+
+    ops = list(_methods())
+    recs = []
+    for i in range(3000 if ctx.quick else 40000):
+        h = rnd_scalar()
+        op = rng.choice(ops)
+        needle = rng.choice([rnd_text(), str(rng.randint(-100, 100)), "%d.5" % rng.randint(0, 9), h["v"], h["v"][:2]])
+        if op == "=~":
+            needle = rng.choice(["a", "^a", "b$", "a.b", "ab*", "0*1", "^.*$", needle.replace(" ", "")])
+        if h["t"] == "float" and h["v"].startswith("-0."):
+            continue
+        recs.append({"id": len(recs), "op": op, "needle": needle, "t": h["t"], "v": h["v"]})
+    rin, rout = ctx.path("rand.in.json"), ctx.path("rand.out.json")
+    with open(rin, "w") as fh:
+        json.dump(recs, fh)
+    core.run_tlc(ctx, "Batch_Compare", "Batch_Compare.cfg", env={"RECORDS_IN": rin, "VERDICTS_OUT": rout}, workers=1, name="rand")
+    with open(rout) as fh:
+        outs = {o["id"]: o for o in json.load(fh)}
+    rcells = [{"op": r["op"], "needle": r["needle"], "hay": {"t": r["t"], "v": r["v"]}, "m": outs[r["id"]]["m"], "silent": outs[r["id"]]["silent"]}
+              for r in recs]
+    n_rand_det = 0
+    for c, got, err in querycorpus.pmap(_cells_work, rcells, chunk=400):
+        if err and err != "yperr":
+            ctx.violation("raises:%s:%s" % (c["op"], err.split(":")[0]),
+                          "search_matches(%s, %r, %r) raised %s" % (c["op"], c["needle"], c["hay"], err), {"kind": "cell", "cell": c})
+        elif err == "yperr":
+            if not (c["op"] == "=~" and c["silent"]):
+                ctx.violation("raises:%s:yperr" % c["op"], "search_matches(%s, %r, %r) raised a YAML Path error for a well-formed term" % (
+                    c["op"], c["needle"], c["hay"]), {"kind": "cell", "cell": c})
+        elif c["silent"]:
+            n_silent += 1
+            drift += got != c["m"]
+        else:
+            n_rand_det += 1
+            if got != c["m"]:
+                ctx.violation("cell:%s:%s-random" % (c["op"], c["hay"]["t"]),
+                              "search_matches(%s, needle=%r, haystack=%r) = %s, documented rules give %s" % (
+                                  c["op"], c["needle"], c["hay"], got, c["m"]), {"kind": "cell", "cell": c})
+    ctx.coverage["random_cells"] = len(rcells)
+    ctx.coverage["random_cells_determined"] = n_rand_det
     # ---- inversion over candidate sets (MC_Query corpus, single-segment searches)
     corpus = querycorpus.tlc_corpus(ctx, "MC_Query", ["MC_Query_q1.cfg"] if ctx.quick else ["MC_Query_t1.cfg"])
     items = [(d, [c for c in cs if c["ty"] == "SEARCH"]) for d, cs in corpus if d[0]["k"] in ("seq", "set", "map")]
